@@ -29,7 +29,7 @@ type logLine struct {
 
 func renderLogLine(ln logLine, pos int) string {
 	prof := strings.Join(ln.Prof, "")
-	marker := "mk_" + ln.Cid + "_"
+	marker := "mk_" + ln.Cid + "_" + markerTail
 	head := fmt.Sprintf("type=AVC msg=audit(1700000%03d.%03d:%d): ", pos, pos, 100+pos)
 	switch ln.Cls {
 	case "ALLOWED", "DENIED", "AUDIT":
@@ -54,6 +54,9 @@ func renderLogLine(ln logLine, pos int) string {
 	}
 	return ""
 }
+
+// the marker ends with text a formatting function would misread
+const markerTail = "%d%s_100%"
 
 var reMarker = regexp.MustCompile(`mk_(c[0-9]+)_`)
 var reVmPath = regexp.MustCompile(`/vm/(c[0-9]+)/`)
@@ -219,9 +222,14 @@ func checkC14(e *Env, r *Report) {
 		if j.mode == "rules" {
 			re = reVmPath
 		}
+		garbled := []int{}
 		for _, line := range strings.Split(r1.Stdout, "\n") {
 			if m := re.FindStringSubmatch(line); m != nil {
 				out = append(out, first[m[1]])
+				// the printed line carries the record's own text, not a re-interpretation of it
+				if j.mode != "rules" && !strings.Contains(line, "mk_"+m[1]+"_"+markerTail) {
+					garbled = append(garbled, first[m[1]])
+				}
 			}
 		}
 		fmtName := "audit"
@@ -231,7 +239,7 @@ func checkC14(e *Env, r *Report) {
 			fmtName = "syslog"
 		}
 		recs[i] = map[string]any{"ev": "run", "id": fmt.Sprintf("%s|%s|%s|filter=%s", compactLog(j.log), fmtName, j.mode, strings.Join(j.filter, "")), "mode": j.mode, "filter": j.filter,
-			"input": j.log, "output": out, "exit": r1.Exit, "stable": stable}
+			"input": j.log, "output": out, "exit": r1.Exit, "stable": stable, "garbled": garbled}
 		_ = os.Remove(p)
 	})
 	r.Coverage["aa_log_runs"] = len(jobs) * 3
